@@ -28,7 +28,8 @@ ASSUMPTIONS = [
 ENZ = "BsaI"
 
 
-VARIANTS = ["cited", "plain", "cited-rotated", "plain-rotated", "cited-aligned", "plain-aligned", "cited-odd", "plain-odd"]
+VARIANTS = ["cited", "plain", "cited-rotated", "plain-rotated", "cited-aligned", "plain-aligned", "cited-odd", "plain-odd",
+            "cited-odd-aligned", "plain-odd-aligned"]
 
 
 def bounds(tier):
@@ -49,6 +50,9 @@ def ref(i):
     r.authors = "Author %d" % i
     r.journal = "Journal %d" % i
     r.pubmed_id = str(1000 + i)
+    if i % 2 == 1:
+        # GenBank `REFERENCE n (bases 3 to 9)`: a base range shorter than any of the plasmids
+        r.location = [FeatureLocation(2, 9)]
     return r
 
 
@@ -64,9 +68,9 @@ def build_world(variant):
     g = gen.geometry_of(gen.enzyme(ENZ))
     M, V = gen.generic_classes(ENZ)
     cited = variant.startswith("cited")
-    odd = variant.endswith("odd")              # rotated, plus unusual but legal record contents set after construction
-    rotated = variant.endswith("rotated") or odd
+    odd = "odd" in variant.split("-")          # unusual but legal record contents set after construction (rotated unless aligned)
     aligned = variant.endswith("aligned")      # origin exactly on the first base of the fragment the library cuts out
+    rotated = variant.endswith("rotated") or (odd and not aligned)
     base = asm.base_scenario(ENZ, 3)
     vec, mods = asm.pieces_to_plasmids(base)
     o = base["ovs"]
@@ -78,7 +82,10 @@ def build_world(variant):
         ann = {"topology": "circular", "organism": "org-" + name}
         if refs:
             ann["references"] = refs
-        r = CircularRecord(Seq(s), id=name, name=name, description="desc " + name, features=feats, annotations=ann)
+        from Bio.Seq import MutableSeq
+        # in the `odd` worlds every second record holds a MutableSeq (an assembly that edits a sequence in place would show)
+        seq = MutableSeq(s) if (odd and len(recs) % 2 == 1) else Seq(s)
+        r = CircularRecord(seq, id=name, name=name, description="desc " + name, features=feats, annotations=ann)
         if rotated:
             r = r >> (len(s) - t0 - 2 if name != "v" else 2)      # origin inside the target / inside the backbone
         if odd:
@@ -91,6 +98,9 @@ def build_world(variant):
             r.dbxrefs.append("db:" + name)
             for f in r.features[:1]:
                 f.qualifiers["note"] = "plain string " + name
+            # a feature located on another sequence (GenBank `J00194.1:4..9`), and one with fuzzy ends
+            r.features.append(SeqFeature(FeatureLocation(3, 9, strand=1, ref="J00194.1"), type="exon", id="remote-" + name, qualifiers={"label": ["remote"]}))
+            r.features.append(gen.mk_feature([(1, 4, 1)], type="fuzzy_region", fid="fz-" + name))
         if aligned:
             # modules: origin on the first base of the upstream overhang; vectors: on the first base of the downstream overhang
             r = r >> ((len(s) - t0) if not name.startswith("v") else (len(s) - (g.ov + len(base["vbb"]))))
@@ -282,7 +292,7 @@ def run_unit(unit, st, tier):
         st.goal("cited-world")
     if variant.endswith("rotated"):
         st.goal("rotated-world")
-    if variant.endswith("odd"):
+    if "odd" in variant.split("-"):
         st.goal("odd-world")
     if variant.endswith("aligned"):
         st.goal("origin-on-first-base-of-fragment")
